@@ -111,7 +111,12 @@ func runBehaviour(t *testing.T, tr *vh.Trace, tid string, beh []Cmd, pairs map[i
 		case "init":
 			err = ks.Initialize(master, slotName(c.S), pairs[c.Kp].pub)
 		case "add":
-			err = ks.AddKeySlot(slotName(c.S), pairs[c.Kp].pub, slotName(c.O), pairs[c.Ko].priv)
+			pub := pairs[c.Kp].pub
+			if c.Kp == 0 { // a public key that cannot be used (cut off): the call must be refused and have no effect
+				pub = pairs[1].pub[:32]
+			}
+
+			err = ks.AddKeySlot(slotName(c.S), pub, slotName(c.O), pairs[c.Ko].priv)
 		case "delete":
 			err = ks.DeleteKeySlot(slotName(c.S), pairs[c.Kp].priv)
 		case "get":
